@@ -206,6 +206,45 @@ func run(c *mon.Ctx) {
 		})
 		c.Class("concurrent-decoders")
 	})
+	c.Stream("concurrent-classification", c.N(3, 150), func(i int, r *gen.Rand) {
+		c.Concurrent("psi.IsPMT with PATs of their own", 8, 400, r, func(q *gen.Rand) string {
+			p := genPAT(q, 12)
+			pat, err := psi.NewPAT(append([]byte{0}, p.Section()...))
+			if err != nil || pat == nil {
+				return fmt.Sprintf("a well-formed payload was rejected: %v", err)
+			}
+			vals := map[int]bool{}
+			for _, e := range p.Entries {
+				if e.Program != 0 {
+					vals[e.PID] = true
+				}
+			}
+			try := func(pid int) string {
+				var pk packet.Packet
+				pk[0], pk[1], pk[2], pk[3] = 0x47, byte(pid>>8), byte(pid), 0x10
+				g, err := psi.IsPMT(&pk, pat)
+				if err != nil || g != vals[pid] {
+					return fmt.Sprintf("IsPMT(packet with PID %#x)=%v,%v; PID is a value of the program map: %v (%s)", pid, g, err, vals[pid], entriesString(&p))
+				}
+				return ""
+			}
+			for pid := range vals {
+				if s := try(pid); s != "" {
+					return s
+				}
+				if s := try((pid + 1) & 0x1fff); s != "" {
+					return s
+				}
+			}
+			for k := 0; k < 6; k++ {
+				if s := try(q.Intn(8192)); s != "" {
+					return s
+				}
+			}
+			return ""
+		})
+		c.Class("concurrent-classification")
+	})
 	c.Stream("payload", c.N(12000, 400000), func(i int, r *gen.Rand) {
 		p := genPAT(r, 253)
 		sec := p.Section()
@@ -320,6 +359,11 @@ func run(c *mon.Ctx) {
 		if r.Chance(10) {
 			before = 20 + r.Intn(100)
 		}
+		if r.Chance(400) {
+			// "any packets of other PIDs": several megabytes of them (no bound on the search is part of the contract)
+			before = r.PickInt([]int{22309, 22310, 22311, 30000, 45000, 5578, 5579})
+			c.Count("stream.pat_behind_megabytes")
+		}
 		for k := 0; k < before; k++ {
 			o := ref.PaddedPacket(1+r.Intn(8190), r.Intn(16), r.Bool(), r.Bytes(r.Intn(185)))
 			if r.Chance(3) {
@@ -385,6 +429,7 @@ func run(c *mon.Ctx) {
 		c.Fail("IsPMT:nil-pat", fmt.Sprintf("IsPMT(pkt, nil) = %v, %v; want false and the nil-PAT error", g, err), nil)
 	}
 	c.Floor("stream.without_pat", 100)
+	c.Floor("stream.pat_behind_megabytes", 5)
 }
 
 func tail(b []byte, n int) []byte {
